@@ -64,7 +64,7 @@ def packet_for(rng: Rng, r: dict) -> dict:
 
 
 def gen_case(rng: Rng, max_ops: int = 30) -> dict:
-    surface = rng.choice(["api", "api", "request", "config"])
+    surface = rng.choice(["api", "api", "request", "config", "action", "action"])
     ops = []
     n = rng.range(3, max_ops)
     dense = rng.chance(1, 3)
@@ -166,6 +166,38 @@ def _config_entry(r: dict) -> Optional[dict]:
     return e
 
 
+def _via_action(acl, kind: str, op: dict) -> str:
+    """Form the request exactly as the agent actions do (router and firewall variants alternate), strip the route that
+    leads to the ACL, and hand the rest to the ACL's own request manager."""
+    import primaite.game.game  # noqa: F401
+    from primaite.game.agent.actions.abstract import AbstractAction
+    reg = AbstractAction._registry
+    fw = (op["pos"] % 2 == 1)
+    if kind == "add":
+        r = op["rule"]
+        ident = "firewall-acl-add-rule" if fw else "router-acl-add-rule"
+        opts = {"position": op["pos"], "permission": r["action"],
+                "src_ip": "ALL" if r["src_ip"] is None else r["src_ip"], "src_wildcard": "NONE" if r["src_wc"] is None else r["src_wc"],
+                "src_port": "ALL" if r["src_port"] is None else r["src_port"],
+                "dst_ip": "ALL" if r["dst_ip"] is None else r["dst_ip"], "dst_wildcard": "NONE" if r["dst_wc"] is None else r["dst_wc"],
+                "dst_port": "ALL" if r["dst_port"] is None else r["dst_port"],
+                "protocol_name": "ALL" if r["proto"] is None else r["proto"]}
+    else:
+        ident = "firewall-acl-remove-rule" if fw else "router-acl-remove-rule"
+        opts = {"position": op["pos"]}
+    if fw:
+        opts.update(target_firewall_nodename="fw", firewall_port_name="internal", firewall_port_direction="inbound")
+        strip = ["network", "node", "fw", "internal", "inbound", "acl"]
+    else:
+        opts.update(target_router="rt")
+        strip = ["network", "node", "rt", "acl"]
+    req = reg[ident].form_request(reg[ident].ConfigSchema(type=ident, **opts))
+    if req[:len(strip)] != strip:
+        return f"odd-route {req[:len(strip)]}"
+    resp = acl.apply_request(req[len(strip):], {})
+    return "ok" if resp.status == "success" else "raised"
+
+
 def run_impl(case: dict) -> Tuple[List[str], int, List[Tuple[int, dict]]]:
     """Returns the output lines (aligned with model_lines), the number of slots, and rules preloaded by the surface."""
     from primaite.simulator.network.hardware.nodes.network.router import ACLAction, AccessControlList, Router
@@ -194,7 +226,11 @@ def run_impl(case: dict) -> Tuple[List[str], int, List[Tuple[int, dict]]]:
         rest = ops
     for op in rest:
         try:
-            if op["op"] == "add":
+            if op["op"] == "add" and case["surface"] == "action":
+                out.append(_via_action(acl, "add", op))
+            elif op["op"] == "remove" and case["surface"] == "action":
+                out.append(_via_action(acl, "remove", op))
+            elif op["op"] == "add":
                 r = op["rule"]
                 if case["surface"] == "request":
                     req = ["add_rule", r["action"], "ALL" if r["proto"] is None else r["proto"],
